@@ -34,7 +34,7 @@ PROPS["C18"] = {
 }
 
 PROPS["C01"] = {
-    "rules": [r_transform.rule_TP1, r_sync.rule_S1, r_sync.rule_S2, r_sync.rule_S3, r_sync.rule_S9, r_sync.rule_S10, r_sync.rule_S4, r_sync.rule_S5, r_sync.rule_S6, r_wire.rule_W4],
+    "rules": [r_transform.rule_TP1, r_sync.rule_S1, r_sync.rule_S2, r_sync.rule_S3, r_sync.rule_S9, r_sync.rule_S10, r_sync.rule_S4, r_sync.rule_S5, r_sync.rule_S6, r_wire.rule_W4, r_storage.rule_N3],
     "explanation": "TR/TP1: the transform's complete decision table is extracted statically from MIR and checked exhaustively over the finite abstract input space against the documented application semantics (diamond property).",
     "not_decided": "convergence over whole histories, N replicas, batching arithmetic",
     "assumptions": [],
@@ -58,7 +58,7 @@ PROPS["C02"] = {
     "assumptions": [],
 }
 PROPS["C12"] = {
-    "rules": [r_sync.rule_N1, r_sync.rule_N2, r_storage.rule_N3, r_storage.rule_N4, r_storage.rule_N5],
+    "rules": [r_sync.rule_N1, r_sync.rule_N2, r_storage.rule_N3, r_storage.rule_N3_overrides, r_storage.rule_N4, r_storage.rule_N5],
     "explanation": "N1 snapshot only with nothing pending and labelled with the accepted id; N2 urgency gate table and SnapshotUrgency declaration order; N3 both is_empty defaults check tasks, base version and unsynced operations, and snapshots are fetched/applied only on that outcome; N4 apply_snapshot writes every decoded task and sets the base version; N5 codec pairing.",
     "not_decided": "equality of snapshot content with the chain replay for all histories and Unicode contents",
     "assumptions": [],
@@ -76,7 +76,7 @@ PROPS["C07"] = {
     "assumptions": [],
 }
 PROPS["C15"] = {
-    "rules": [r_taskdb.rule_R1, r_taskdb.rule_R2, r_taskdb.rule_R3, r_taskdb.rule_R4, lambda F, R: r_txn.rule_T1(F, R, only=("rebuild_working_set",))],
+    "rules": [r_taskdb.rule_R1, r_taskdb.rule_R2, r_taskdb.rule_R5, r_taskdb.rule_R3, r_taskdb.rule_R4, lambda F, R: r_txn.rule_T1(F, R, only=("rebuild_working_set",))],
     "explanation": "R1 keep/blank/drop table of one scan iteration of the working-set rebuild (all 7 rows); R2 slot 0 blank, scan from 1, newcomers = all tasks not seen and wanted, appended after the scan; R3 predicate truth tables (status in {pending, recurring}; commit trigger); R4 constant-false renumber after sync and undo; T1.",
     "not_decided": "the resulting numbering as a function of arbitrary prior working sets over sequences of rebuilds; that the write-back makes storage equal to the computed vector",
     "assumptions": [],
@@ -94,7 +94,7 @@ PROPS["C06"] = {
     "assumptions": ["rusqlite's default drop behaviour is rollback", "SQLite's atomic commit in WAL/rollback-journal modes"],
 }
 PROPS["C16"] = {
-    "rules": [r_storage.rule_Q1, r_storage.rule_Q2, r_storage.rule_Q3, r_storage.rule_N3],
+    "rules": [r_storage.rule_Q1, r_storage.rule_Q2, r_storage.rule_Q3, r_storage.rule_Q4, r_storage.rule_N3, r_storage.rule_N3_overrides],
     "explanation": "Q1 proxy/actor tables agree (21 methods x 22 messages, crossed wires compile); Q2 every modifying SQL statement and commit dominated by check_write_access, schema upgrade only read-write; Q3 in-memory add_to_working_set returns the stored index; N3 sibling is_empty defaults agree.",
     "not_decided": "equality of results for all call sequences, persistence across reopen, legacy-schema upgrades as data transformations",
     "assumptions": [],
@@ -106,19 +106,19 @@ PROPS["C13"] = {
     "assumptions": ["ring's AEAD and PBKDF2 are correct", "reqwest/std::fs/serde_json sinks are the only ways bytes leave the host in these modules (sink table in rules/r_crypto.py)"],
 }
 PROPS["C14"] = {
-    "rules": [r_wire.rule_W1, r_wire.rule_W2, r_wire.rule_W3, r_wire.rule_W4],
+    "rules": [r_wire.rule_W1, r_wire.rule_W2, r_wire.rule_W3, r_wire.rule_W4, r_sync.rule_S4, r_sync.rule_S10],
     "explanation": "W1 the SyncOp type is exactly the documented operation format (no undo point, no old values); W2 writer and reader wire-name tables read from the serde impls agree with the documentation; W3 the history segment is serde_json of Version{operations: Vec<SyncOp>} filled from unsynced_operations through from_op; W4 conversion tables field by field; W5 no reordering between load and serialisation.",
     "not_decided": "RFC 3339 rendering/parsing of timestamps at other precisions (chrono/serde behaviour); acceptance of every well-formed foreign document",
     "assumptions": ["serde_json / chrono serde implementations behave as documented"],
 }
 PROPS["C08"] = {
-    "rules": [r_servers.rule_P1, r_servers.rule_P2, r_servers.rule_P3, lambda F, R: r_cloud.rule_K(F, R), r_servers.rule_A1_local],
+    "rules": [r_servers.rule_P1, r_servers.rule_P2, r_servers.rule_P3, lambda F, R: r_cloud.rule_K(F, R), r_servers.rule_A1_local, r_servers.rule_GC, r_servers.rule_GI],
     "explanation": "P1 acceptance-guard path tables for the local, object-store and git backends; P2 identity of returned ids (child vs parent, Ok(id) is the stored fresh id); P3 HTTP mapping table against docs/http.md (endpoints, verbs, content types, headers, 409/404 mapping, urgency header); K1-K5 for the object store; A1 for the local backend.",
     "not_decided": "conformance over long call sequences; byte-for-byte round trips of arbitrary payloads through SQLite/git/HTTP encodings; `changes nothing on rejection` as a state property",
     "assumptions": ["a protocol-conformant sync server on the other side of the HTTP client"],
 }
 PROPS["C11"] = {
-    "rules": [r_servers.rule_A1_local, lambda F, R: r_cloud.rule_K(F, R, which=("K2", "K5", "K4")), r_servers.rule_GI],
+    "rules": [r_servers.rule_A1_local, lambda F, R: r_cloud.rule_K(F, R, which=("K2", "K5", "K4")), r_servers.rule_K7, r_servers.rule_GI, r_servers.rule_GC],
     "explanation": "A1 the local backend's accept path is one SQLite transaction (read, both writes, one commit); K5/K2 object store: the version object exists before `latest` can name it and nothing is acknowledged without the swap; GI git: commit of version file and meta precedes the push and Ok only on push()==true.",
     "not_decided": "git's and SQLite's on-disk behaviour at a kill; restart-and-continue histories; the git backend's error exits between writing meta and committing",
     "assumptions": [],
